@@ -7,3 +7,6 @@ import "time"
 // Thin exports for the /verif correspondence harness (property C31).
 
 func VerifParseRFC1123DateGMT(b []byte) (time.Time, bool) { return parseRFC1123DateGMT(b) }
+
+// VerifValidateIPv6Literal reports whether validateIPv6Literal accepts host.
+func VerifValidateIPv6Literal(host []byte) bool { return validateIPv6Literal(host) == nil }
